@@ -268,6 +268,7 @@ class Repo:
                     m_.reindex()
                 if ridents and _cn0.inline_named_constants(rel, m_, ridents):
                     m_.reindex()
+            _cn0.restore_instance_methods(self)
             fr = _cn0.normalise_function_names(self)
             if fr:
                 self.functions_renamed = fr
